@@ -875,7 +875,7 @@ def ops_stream(ctx):
     def ratm(M, f=lambda x: x):
         return [[rat(Fraction(float(f(M[p, q])))) for q in range(M.shape[1])] for p in range(M.shape[0])]
 
-    sizes = [2, 3, 4, 5] if not big else [1, 2, 3, 4, 5, 6, 7]
+    sizes = [2, 3, 4, 5] if not big else [1, 2, 3, 4, 5, 6]
     for n in sizes:
         for pattern in ('mixed', 'imaginary', 'real'):
             ham = patterned_dch(of, rng, n, pattern)
